@@ -37,6 +37,7 @@ def target : Op → Id
   | .push b => b.id
   | .update id _ _ _ => id
   | .delete id => id
+  | .replace b => b.id
 
 /-- An operation changes the record of its own id only. -/
 theorem spec_frame (m : SMap) (op : Op) (id : Id) (h : id ≠ target op) :
@@ -50,7 +51,11 @@ theorem spec_frame (m : SMap) (op : Op) (id : Id) (h : id ≠ target op) :
     | some r =>
       simp only
       split
-      · exact get_put_ne _ _ _ _ hne
+      · split
+        · split
+          · exact get_put_ne _ _ _ _ hne
+          · rfl
+        · exact get_put_ne _ _ _ _ hne
       · rfl
   | update id' pe ex pr =>
     have hne : id' ≠ id := fun e => h e.symm
@@ -62,6 +67,16 @@ theorem spec_frame (m : SMap) (op : Op) (id : Id) (h : id ≠ target op) :
     have hne : id' ≠ id := fun e => h e.symm
     simp only [specStep]
     exact get_del_ne _ _ _ hne
+  | replace b =>
+    have hne : b.id ≠ id := fun e => h e.symm
+    simp only [specStep]
+    cases hg : get b.id m with
+    | none => rfl
+    | some r =>
+      simp only
+      split
+      · exact get_put_ne _ _ _ _ hne
+      · rfl
 
 /-- Effect of the operations on the reference map, by id (sanity of the Spec). -/
 theorem spec_delete_gone (m : SMap) (id : Id) : get id (specStep m (.op (.delete id))) = none :=
@@ -91,25 +106,49 @@ theorem spec_sweep_get (m : SMap) (hn : (keys m).Nodup) (now : Nat) (id : Id) :
       · simp only [List.filter_cons, hv, decide_false, Bool.not_false, if_true, get_cons, hk, if_false]
         exact ih'
 
-/-- Every part held by the reference map stems from a push of the history, with its bytes. -/
+/-- Bundles handed to the store by the history (`Push` or `ReplaceBundle`). -/
+def Given (cs : List Cmd) (b : Bundle) : Prop := Cmd.op (.push b) ∈ cs ∨ Cmd.op (.replace b) ∈ cs
+
+/-- Every part held by the reference map stems from a push or a replacement of the history, with
+its bytes. -/
 def SpecOk (cs : List Cmd) (m : SMap) : Prop :=
   ∀ e ∈ m, ∀ kv ∈ e.2.parts,
-    ∃ b, Cmd.op (.push b) ∈ cs ∧ b.id = e.1 ∧ fragKey b = kv.1 ∧ kv.2 = some b.bytes
+    ∃ b, Given cs b ∧ b.id = e.1 ∧ fragKey b = kv.1 ∧ kv.2 = content b
 
 theorem specOk_mono {cs cs' : List Cmd} {m : SMap} (h : SpecOk cs m) (hs : ∀ c ∈ cs, c ∈ cs') :
     SpecOk cs' m := by
   intro e he kv hkv
   obtain ⟨b, hb, r⟩ := h e he kv hkv
-  exact ⟨b, hs _ hb, r⟩
+  exact ⟨b, hb.imp (hs _) (hs _), r⟩
+
+theorem mem_setPart {k : Nat × Nat} {v : Option (Nat × Bytes)}
+    {ps : List ((Nat × Nat) × Option (Nat × Bytes))} {kv : (Nat × Nat) × Option (Nat × Bytes)}
+    (h : kv ∈ setPart k v ps) : kv = (k, v) ∨ kv ∈ ps := by
+  simp only [setPart, List.mem_map] at h
+  obtain ⟨p, hp, he⟩ := h
+  by_cases hk : p.1 = k
+  · rw [if_pos hk] at he; exact Or.inl he.symm
+  · rw [if_neg hk] at he; exact Or.inr (he ▸ hp)
 
 theorem specOk_step (cs : List Cmd) (m : SMap) (c : Cmd) (h : SpecOk cs m) :
     SpecOk (cs ++ [c]) (specStep m c) := by
   have h' : SpecOk (cs ++ [c]) m := specOk_mono h (fun x hx => List.mem_append_left _ hx)
+  -- a record whose parts are old ones or the content of a bundle given by `c`
+  have upd : ∀ (b : Bundle) (r r' : Record), Given (cs ++ [c]) b → get b.id m = some r →
+      (∀ kv ∈ r'.parts, kv = (fragKey b, content b) ∨ kv ∈ r.parts) →
+      SpecOk (cs ++ [c]) (put b.id r' m) := by
+    intro b r r' hb hg hparts e he kv hkv
+    rcases mem_put_weak he with he | he
+    · subst he
+      rcases hparts kv hkv with hkv | hkv
+      · subst hkv; exact ⟨b, hb, rfl, rfl, rfl⟩
+      · exact h' (b.id, r) (get_some_mem hg) kv hkv
+    · exact h' e he kv hkv
   cases c with
   | op o =>
     cases o with
     | push b =>
-      have hb : Cmd.op (.push b) ∈ cs ++ [Cmd.op (.push b)] := by simp
+      have hb : Given (cs ++ [Cmd.op (.push b)]) b := Or.inl (by simp)
       simp only [specStep]
       cases hg : get b.id m with
       | none =>
@@ -123,14 +162,13 @@ theorem specOk_step (cs : List Cmd) (m : SMap) (c : Cmd) (h : SpecOk cs m) :
       | some r =>
         simp only
         split
-        · intro e he kv hkv
-          rcases mem_put_weak he with he | he
-          · subst he
+        · split
+          · split
+            · exact upd b r _ hb hg (fun kv hkv => mem_setPart hkv)
+            · exact h'
+          · refine upd b r _ hb hg (fun kv hkv => ?_)
             simp only [List.mem_append, List.mem_singleton] at hkv
-            rcases hkv with hkv | hkv
-            · exact h' (b.id, r) (get_some_mem hg) kv hkv
-            · subst hkv; exact ⟨b, hb, rfl, rfl, rfl⟩
-          · exact h' e he kv hkv
+            exact hkv.symm
         · exact h'
     | update id pe ex pr =>
       simp only [specStep]
@@ -146,6 +184,16 @@ theorem specOk_step (cs : List Cmd) (m : SMap) (c : Cmd) (h : SpecOk cs m) :
       intro e he kv hkv
       simp only [specStep, del] at he
       exact h' e (List.mem_filter.mp he).1 kv hkv
+    | replace b =>
+      have hb : Given (cs ++ [Cmd.op (.replace b)]) b := Or.inr (by simp)
+      simp only [specStep]
+      cases hg : get b.id m with
+      | none => exact h'
+      | some r =>
+        simp only
+        split
+        · exact upd b r _ hb hg (fun kv hkv => mem_setPart hkv)
+        · exact h'
   | sweep now =>
     intro e he kv hkv
     simp only [specStep] at he
